@@ -16,6 +16,18 @@ def run(ctx):
     gen_thrift.tolerant_reader(rep)
     if ctx['tier'] == 'thorough':
         gen_thrift.tolerant_reader(rep, split=True)   # same rules on the split-file output
+    # "ignore what you do not know" is done by the runtime skippers: they handle the same wire types, pair struct
+    # begin/end, and the unchecked one keeps its pending-container stack and width tables right
+    import mirlib
+    import skippers
+    import unsafe_codec
+    from vpcheck import ws_facts
+    prog = mirlib.load_program([ws_facts('ws')])
+    cg = mirlib.CallGraph(prog)
+    skippers.arms_agree(rep, 'R08.s', prog)
+    skippers.struct_pairing(rep, 'R08.s', prog)
+    skippers.binary_arm_reader_accepts_any_bytes(rep, 'R08.s', prog, cg)
+    unsafe_codec.skipper_tables(rep, 'R08.s', prog, cg)
     rep.programs = 14
     rep.disagreements_checked = rep.obligations
     rep.floor('G08.a', 300)
